@@ -40,10 +40,11 @@ logging.getLogger("ttconv").propagate = False
 
 ID = "C14"
 LEVEL = "exploration"
+ISOLATE_RUNS = True  # every history runs in its own fork: state leaked by one history cannot reach the next
 SOFT_TIMEOUT = 30
 TIERS = {
   "quick": {"runs": 3200, "hard_timeout": 90, "shrink_budget": 30, "shrink_total": 240, "det_sample": 32},
-  "thorough": {"runs": 400000, "hard_timeout": 120, "shrink_budget": 120, "shrink_total": 900, "det_sample": 256},
+  "thorough": {"runs": 150000, "hard_timeout": 120, "shrink_budget": 120, "shrink_total": 900, "det_sample": 256},
 }
 
 L = sp.LengthType
@@ -139,6 +140,14 @@ def _timing(rng, p=0.5):
   return b, e
 
 
+def _hide_and_reveal(rng, node):
+  """specified style hides the element, a discrete animation step shows it for a while (or the other way round)"""
+  pn, hidden, shown = rng.choice([("Display", "none", "auto"), ("Visibility", "hidden", "visible"), ("Opacity", "zero", "one")])
+  a, b = (hidden, shown) if rng.random() < 0.75 else (shown, hidden)
+  node["styles"] = [st for st in node.get("styles", []) if st[0] != pn] + [[pn, a]]
+  node["anims"] = node.get("anims", []) + [[pn, rng.choice([None] + TIMES[:6]), rng.choice([None] + TIMES[4:12]), b]]
+
+
 def _inline(rng, regions, depth):
   out = []
   for _ in range(rng.choice([0, 1, 1, 2, 3])):
@@ -164,6 +173,8 @@ def _inline(rng, regions, depth):
               "anims": _anims(rng, ["Color", "Visibility", "Display", "BackgroundColor"], 0.1)}
       if regions and rng.random() < 0.1:
         node["region"] = rng.choice(regions)
+      if rng.random() < 0.12:
+        _hide_and_reveal(rng, node)
       if rng.random() < 0.2:
         node["space"] = "preserve"
       if depth < 2 and rng.random() < 0.3:
@@ -210,6 +221,8 @@ def gen_recipe(rng):
                 "anims": _anims(rng, ["BackgroundColor", "Display", "Visibility", "TextAlign"], 0.1), "c": _inline(rng, ids, 0)}
         if ids and rng.random() < 0.6:
           node["region"] = rng.choice(ids)
+        if rng.random() < 0.2:
+          _hide_and_reveal(rng, node)
         if rng.random() < 0.15:
           node["id"] = "p%d" % len(ps)
         ps.append(node)
@@ -217,6 +230,8 @@ def gen_recipe(rng):
       d = {"k": "Div", "begin": b, "end": e, "styles": _styles(rng, ["BackgroundColor", "Display", "Visibility", "Opacity"], rng.choice([0, 0, 1])), "c": ps}
       if ids and rng.random() < 0.25:
         d["region"] = rng.choice(ids)
+      if rng.random() < 0.06:
+        _hide_and_reveal(rng, d)
       divs.append(d)
     b, e = _timing(rng, 0.15)
     body = {"k": "Body", "begin": b, "end": e, "styles": _styles(rng, ["BackgroundColor", "Display", "Visibility", "Opacity"], rng.choice([0, 0, 1])), "c": divs}
